@@ -107,8 +107,8 @@ REMEDY = {
     "C01-r7-2": "C01 momd with any theta and orders 0-3",
     "C02-r7-1": "C02 spectra stored rolled, descending or in WW3 order",
     "C03-r7-1": "NOT CAUGHT: needs a missing (NaN) wind or depth, which is outside the property's 'all wind speed/direction/depth' inputs; not driven",
-    "C05-r7-2": "NOT CAUGHT by the quick tier: needs the stored direction sequence to start exactly on a bound of the direction window (1 of nd rotations) and a statistic taken on the split output",
-    "C08-r7-1": "NOT CAUGHT: declination-corrected TRIAXYS reads (read_triaxys with magnetic_variation) are not driven by C08 or C13",
+    "C05-r7-2": "statistic of a direction-limited split on a rotated storage order: decided by C09 (stats with limits == stats of the explicit split, rolled storage)",
+    "C08-r7-1": "C13 now reads TRIAXYS files with a magnetic variation as well: same axes, every record keeps the file's wave height",
     "C08-r7-2": "memoised df: history defect, decided by C18",
     "C14-r7-1": "C14 dask-backed station datasets",
     "C14-r7-2": "C14 stations with a missing record (idw must propagate it)",
